@@ -290,6 +290,14 @@ M("C19", "orca-atom-line-dropped", "iodata/inputs/orca.py", r"    if template is
 M("C20", "eigh-overwrites-overlap", "iodata/utils.py", r"eigh\(sds, overlap\)", "eigh(sds, overlap, overwrite_b=True)", "C20-R5")
 T("C20", "eigh-transposed-metric", "iodata/utils.py", r"eigh\(sds, overlap\)", "eigh(sds, overlap.T)")
 
+_VOL_OLD = r"    nvecs = cellvecs\.shape\[0\]\n(?:.|\n)*?    raise ValueError\(\"Argument cellvecs should be of shape \(x, 3\), where x is in \{1, 2, 3\}\"\)\n"
+_VOL_NEW = "    cellvecs = np.atleast_2d(cellvecs)\n    if cellvecs.shape[0] not in (1, 2, 3):\n        raise ValueError(\"Argument cellvecs should be of shape (x, 3)\")\n    gram = np.dot(%s)\n    return np.sqrt(abs(np.linalg.det(gram)))\n"
+T("C20", "volume-as-gram-determinant", "iodata/utils.py", _VOL_OLD, _VOL_NEW % "cellvecs, cellvecs.T")
+M("C20", "volume-gram-of-columns", "iodata/utils.py", _VOL_OLD, _VOL_NEW % "cellvecs.T, cellvecs", "C20-R3")
+M("C20", "volume-signed-triple-product", "iodata/utils.py", r"return abs\(np\.linalg\.det\(cellvecs\)\)", "return np.dot(cellvecs[0], np.cross(cellvecs[1], cellvecs[2]))", "C20-R3")
+T("C20", "volume-abs-triple-product", "iodata/utils.py", r"return abs\(np\.linalg\.det\(cellvecs\)\)", "return abs(np.dot(cellvecs[0], np.cross(cellvecs[1], cellvecs[2])))")
+M("C20", "volume-area-from-dot", "iodata/utils.py", r"np\.linalg\.norm\(np\.cross\(cellvecs\[0\], cellvecs\[1\]\)\)", "abs(np.dot(cellvecs[0], cellvecs[1]))", "C20-R3")
+
 
 def _run_one(args):
     spec, repo = args
